@@ -309,7 +309,7 @@ func (g *Gen) commodity() commoditySpec {
 		c = commoditySpec{Pick(g.r, []string{"green apples", "X 1"}), "quoted-left"}
 	case "quoted-symbols":
 		// letters plus characters of the Unicode symbol classes: no blank, digit or punctuation
-		c = commoditySpec{Pick(g.r, []string{"CL=F", "A+B", "X<Y", "^GSPC", "a~b", "P|Q", "😀C", "x@y"}), "quoted-right"}
+		c = commoditySpec{Pick(g.r, []string{"CL=F", "A+B", "X<Y", "^GSPC", "a~b", "P|Q", "😀C", "x@y", "₹", "$$", "¢"}), "quoted-right"}
 	case "none":
 		c = mkc("", "none")
 	case "code-digits":
